@@ -70,9 +70,15 @@ class World:
             return d - _dt.timedelta(days=1), mins - 60 + 1440
         return d, mins
 
+    def place(self, d: _dt.date, mins: int, fold: int) -> Obj:
+        """the value Timezone.convert leaves: a skipped wall time is moved with datetime arithmetic, which resets the fold to 0"""
+        if d in self.skipped and 0 <= mins < 60:
+            return self.datetime(*self.resolve(d, mins, fold), 0)
+        return self.datetime(d, mins, fold)
+
     def sod(self, d: _dt.date) -> tuple[int, int]:
         """(wall minutes, fold) of the first existing instant of day d"""
-        return (60 if d in self.skipped else 0), (0 if d in self.repeated else 1)
+        return (60 if d in self.skipped else 0), (0 if (d in self.repeated or d in self.skipped) else 1)
 
     # -- values ---------------------------------------------------------------------------------------------------
     def _construct(self, *a, **k):
@@ -86,8 +92,7 @@ class World:
     def _create(self, year, month, day, hour=0, minute=0, second=0, microsecond=0, tz=None, fold=1, raise_on_unknown_times=False):
         if second or microsecond:
             raise core.Unsupported("seconds in the scenario world")
-        d, mins = self.resolve(_dt.date(year, month, day), hour * 60 + minute, fold)
-        return self.datetime(d, mins, fold)
+        return self.place(_dt.date(year, month, day), hour * 60 + minute, fold)
 
     def date(self, d: _dt.date) -> Obj:
         def set_(year=None, month=None, day=None):
@@ -122,12 +127,12 @@ class World:
 
         def set_(year=None, month=None, day=None, hour=None, minute=None, second=None, microsecond=None, tz=None):
             nd, nm = fields(dict(year=year, month=month, day=day, hour=hour, minute=minute, second=second, microsecond=microsecond))
-            return w.datetime(*w.resolve(nd, nm, fold), fold)
+            return w.place(nd, nm, fold)
 
         def replace(year=None, month=None, day=None, hour=None, minute=None, second=None, microsecond=None, tzinfo=True, fold=None):
             f = vars(me)["fold"] if fold is None else fold
             nd, nm = fields(dict(year=year, month=month, day=day, hour=hour, minute=minute, second=second, microsecond=microsecond))
-            return w.datetime(*w.resolve(nd, nm, f), f)
+            return w.place(nd, nm, f)
 
         def on(year, month, day):
             return set_(year=year, month=month, day=day)
@@ -138,7 +143,7 @@ class World:
         def add(years=0, months=0, weeks=0, days=0, hours=0, minutes=0, seconds=0, microseconds=0):
             if hours or minutes or seconds or microseconds:
                 raise core.Unsupported("clock units in the scenario world")
-            return w.datetime(*w.resolve(_shift(d, years, months, weeks, days), mins, 1), 1)
+            return w.place(_shift(d, years, months, weeks, days), mins, 1)
 
         def subtract(years=0, months=0, weeks=0, days=0, hours=0, minutes=0, seconds=0, microseconds=0):
             return add(-years, -months, -weeks, -days, -hours, -minutes, -seconds, -microseconds)
